@@ -195,7 +195,7 @@ fn tail(v: &[String], n: usize) -> Vec<String> {
 // ---------------------------------------------------------------------------------------
 // phase dict: Dictionary + QuotedTripleStore against a shadow bijection
 
-fn raw_pool(r: &mut Rng) -> Vec<String> {
+fn raw_pool(r: &mut Rng, big: bool) -> Vec<String> {
     let tricky = [
         "", " ", "a", "a ", " a", "A", "a\u{0}", "a\u{0}b", "\u{e9}", "e\u{301}", "<<", ">>", "<< a b c >>", "0", "00", "-0", "+0", "0.0", "http://k/e1", "<http://k/e1>", "http://k/e1 ", "\"x\"", "x", "_:b0", "_:b00",
         "\u{1F600}", "\u{FEFF}a", "a\nb", "a\\nb", "unknown",
@@ -217,6 +217,11 @@ fn raw_pool(r: &mut Rng) -> Vec<String> {
     }
     for i in 0..r.range(0, 40) {
         pool.push(format!("http://k/e{}", i));
+    }
+    if big {
+        for i in 0..r.range(500, 3000) {
+            pool.push(format!("http://k/big{}", i));
+        }
     }
     pool
 }
@@ -296,8 +301,9 @@ struct DictStats {
 }
 
 fn run_dict_case(r: &mut Rng, thorough: bool) -> Result<(Finds, DictStats, u64), String> {
-    let pool = raw_pool(r);
-    let n_ops = if thorough && r.chance(1, 20) { r.range(400, 3000) } else { r.range(40, 400) };
+    let big = r.chance(1, if thorough { 20 } else { 100 });
+    let pool = raw_pool(r, big);
+    let n_ops = if big { r.range(1500, 6000) } else { r.range(40, 400) };
     let mut trace: Vec<String> = vec![];
     let mut st = DictStats { new_plain: 0, rep_plain: 0, new_q: 0, rep_q: 0, decodes: 0, unknown_decodes: 0, decode_terms: 0, rechecked: 0, max_depth: 0, calls: 0 };
     let r2 = r.clone();
